@@ -26,31 +26,31 @@ func init() {
 		[]string{"ORD-1", "ORD-2", "ORD-3", "ORD-5", "ORD-13", "TOK-1", "TOK-5", "OWN-3", "OWN-4", "OWN-5", "OWN-8", "OWN-9", "ERR-8"},
 		"path-sensitive must-pass-through and typestate over SSA; who-may rules",
 		lvlCommon, noteCommon,
-		"Decides on every path: accept order (capacity test → Save=nil → enqueue → acceptN++; error ⇒ nothing enqueued/counted/written; first write only without backlog), resend (ascending from the acknowledgement counter, Load=nil and found → write=nil per iteration, DUP condition, both resends nil before the connection is published, under both sequence tokens and the write token), acknowledgement handlers (Delete/Save=nil before counter++ before close/forward; error returns carry no effect), every stream/handler/Persistence error in readSlices resets the connection; token balance and lock order; who may write the counters, delete records and close exchanges. Not decided: that the broker is eventually reached; payload bytes on the wire.",
+		"Decides on every path: accept order (capacity test → Save=nil → enqueue → acceptN++; error ⇒ nothing enqueued/counted/written; first write only without backlog), resend (ascending from the acknowledgement counter, Load=nil and found → write=nil per iteration, DUP condition, both resends nil before the connection is published, under both sequence tokens and the write token), acknowledgement handlers (Delete/Save=nil before counter++ before close/forward; error returns carry no effect), every stream/handler/Persistence error in readSlices resets the connection; token balance and lock order; who may write the counters, delete records and close exchanges. Third round: No error of the stream, a handler, the acknowledgement write, resend or the Persistence is stepped over (the next step happens with the error nil, is its return, or the reset); submitN becomes exactly seqNo+1; known functions do not inherit the ownership of their callers; Client.Config is read only. Not decided: that the broker is eventually reached; payload bytes on the wire.",
 		asmCommon)
 	prop("C02", "restart resumes exactly the unacknowledged set", "§4 C02",
 		[]string{"ADP-1", "ADP-4", "ADP-7", "ADP-8", "COD-1", "COD-8", "COD-9", "ORD-1", "ORD-3", "ORD-4", "OWN-8", "ADP-9", "COD-10", "ERR-8"},
 		"path rules and sibling/table comparison on AdoptSession, cleanSequence and the record codec",
 		lvlCommon, noteCommon,
-		"Decides: the adopted client continues the storage sequence (seqNo seeded from the decoded maximum before newClient); counters and placeholders are computed from cleanSequence results on every path; the three wrap-around adjustments add publishIDMask+1 and compare with the start of their range; cleanSequence restarts at the first pair after a dropped prefix; record encode/decode tables agree; AdoptSession classifies every key space the Save sites use; PUBREL is saved before it is counted and is kept for retry only after a durable Save. Not decided: equality of the recovered set with accepted-minus-acknowledged for arbitrary histories; counter arithmetic values.",
+		"Decides: the adopted client continues the storage sequence (seqNo seeded from the decoded maximum before newClient); counters and placeholders are computed from cleanSequence results on every path; the three wrap-around adjustments add publishIDMask+1 and compare with the start of their range; cleanSequence restarts at the first pair after a dropped prefix; record encode/decode tables agree; AdoptSession classifies every key space the Save sites use; PUBREL is saved before it is counted and is kept for retry only after a durable Save. Third round: The counters AdoptSession installs are first/last of the list that the guards of its appends identify (Acked, acceptN, Completed, Received, submitN; in that order, and whenever placeholders are queued for a non-empty list); the PUBREL→PUBLISH junction and the scan of cleanSequence are decided on twelve representative identifier pairs; the storage sequence seed is a running maximum; the client identifier record is neither deleted nor filed; a failed List/Load is never taken for a damaged record; List's filters hold on every path to an append. Not decided: equality of the recovered set with accepted-minus-acknowledged for arbitrary histories; counter arithmetic values.",
 		asmCommon)
 	prop("C03", "exactly-once publish", "§4 C03",
 		[]string{"ORD-3", "ORD-4", "ORD-2", "ORD-1", "OWN-4", "OWN-9", "COD-1", "COD-12", "COD-3", "ADP-1", "ADP-8", "ADP-9"},
 		"path-sensitive must-pass-through; constant evaluation of identifier spaces; guard dominance",
 		lvlCommon, noteCommon,
-		"Decides: onPUBREC saves PUBREL (nil) before Received++ before the write, onPUBCOMP deletes (nil) before Completed++ before closing the exchange, in-order and depth guards dominate both; only submitPersisted and onPUBREC store under an exactly-once key; resend transmits what is stored with DUP only on PUBLISH; queue capacity ≤ identifier space and the ErrMax test dominates Save, so no identifier is reused before PUBCOMP; storage order survives adoption. Not decided: the broker-side consequence (forwards exactly once).",
+		"Decides: onPUBREC saves PUBREL (nil) before Received++ before the write, onPUBCOMP deletes (nil) before Completed++ before closing the exchange, in-order and depth guards dominate both; only submitPersisted and onPUBREC store under an exactly-once key; resend transmits what is stored with DUP only on PUBLISH; queue capacity ≤ identifier space and the ErrMax test dominates Save, so no identifier is reused before PUBCOMP; storage order survives adoption. Third round: The exactly-once accept count derives from the last PUBLISH key, or the last PUBREL key when no PUBLISH is pending, plus one (ADP-9); Completed/Received are installed first. Not decided: the broker-side consequence (forwards exactly once).",
 		asmCommon)
 	prop("C04", "exactly-once reception", "§4 C04",
 		[]string{"ORD-4", "ORD-6", "COD-11", "OWN-3", "ORD-11"},
 		"path-sensitive must-pass-through over onPUBLISH, readSlices, onPUBREL; key-expression agreement",
 		lvlCommon, noteCommon,
-		"Decides: a QoS 2 delivery lies behind a marker Load that returned (nil,nil); every delivered QoS 1/2 message leaves the matching acknowledgement with the identifier parsed in the same call; a recognised duplicate is answered with PUBREC and not delivered; no error return leaves an acknowledgement queued (except the retried PUBREC of a duplicate); the flush saves the marker (nil) before PUBREC and truncates only behind a nil write; the read loop continues only with pendingAck empty; onPUBREL deletes (nil) before PUBCOMP regardless of the marker's existence; the three marker key expressions agree; toOffline keeps pendingAck. Not decided: once-per-cycle delivery over histories with restarts (needs marker contents).",
+		"Decides: a QoS 2 delivery lies behind a marker Load that returned (nil,nil); every delivered QoS 1/2 message leaves the matching acknowledgement with the identifier parsed in the same call; a recognised duplicate is answered with PUBREC and not delivered; no error return leaves an acknowledgement queued (except the retried PUBREC of a duplicate); the flush saves the marker (nil) before PUBREC and truncates only behind a nil write; the read loop continues only with pendingAck empty; onPUBREL deletes (nil) before PUBCOMP regardless of the marker's existence; the three marker key expressions agree; toOffline keeps pendingAck. Third round: A flush without marker Save lies behind pendingAck[0]>>4 != typePUBREC; errDupe is never served and never returned to the application; the PUBREC for a duplicate carries the parsed identifier; a parked BigMessage is flushed and cleared at entry. Not decided: once-per-cycle delivery over histories with restarts (needs marker contents).",
 		asmCommon)
 	prop("C05", "acceptance order, DUP only on re-delivery", "§4 C05",
 		[]string{"TOK-1", "TOK-5", "ORD-1", "ORD-2", "OWN-6", "OWN-2", "OWN-9", "COD-1", "COD-8", "ERR-8"},
 		"token typestate and lock-order graph; must-pass-through; who-may rules",
 		lvlCommon, noteCommon,
-		"Decides: the sequence token is held across Save, enqueue and first write on every path (released only by the deferred unlock); sequence tokens are acquired before the write token in submitPersisted and connect (acyclic order graph); a backlog forbids an overtaking write; resend ascends from the oldest unacknowledged with DUP iff seqNo<submitN and PUBLISH; nobody else sets DUP or writes to the wire. Not decided: observed wire order under real schedules (follows from the above only given Go's channel semantics).",
+		"Decides: the sequence token is held across Save, enqueue and first write on every path (released only by the deferred unlock); sequence tokens are acquired before the write token in submitPersisted and connect (acyclic order graph); a backlog forbids an overtaking write; resend ascends from the oldest unacknowledged with DUP iff seqNo<submitN and PUBLISH; nobody else sets DUP or writes to the wire. Third round: submitN becomes exactly seqNo+1 behind a nil write; resend and the accept path examine every error. Not decided: observed wire order under real schedules (follows from the above only given Go's channel semantics).",
 		asmCommon)
 	prop("C06", "inbound bytes exact under any fragmentation", "§4 C06",
 		[]string{"ORD-11", "ORD-12", "ORD-13", "ORD-14", "ORD-6", "COD-4", "ERR-8"},
@@ -63,13 +63,13 @@ func init() {
 		[]string{"ORD-4", "ORD-6", "OWN-3", "ORD-11"},
 		"path-sensitive must-pass-through; who-may-write rule for pendingAck",
 		lvlCommon, noteCommon,
-		"Decides: onPUBLISH never writes to the wire while delivering and only queues the acknowledgement (matching type, identifier parsed in the same call); no error return leaves one queued for a message that was not returned; the flush dominates every peekPacket; pendingAck is truncated only behind a nil write and written only by its four owners; toOffline keeps it so that it is sent on the new connection. Not decided: timing relative to the application's next call is implied by the flush being at function entry, not observed.",
+		"Decides: onPUBLISH never writes to the wire while delivering and only queues the acknowledgement (matching type, identifier parsed in the same call); no error return leaves one queued for a message that was not returned; the flush dominates every peekPacket; pendingAck is truncated only behind a nil write and written only by its four owners; toOffline keeps it so that it is sent on the new connection. Third round: handshake (or any function outside the four owners) may not touch pendingAck even when all its callers are owners; a parked BigMessage is cleared unless served. Not decided: timing relative to the application's next call is implied by the flush being at function entry, not observed.",
 		asmCommon)
 	prop("C08", "whole packets only", "§4 C08",
 		[]string{"TOK-1", "TOK-2", "TOK-4", "OWN-1", "OWN-2", "ORD-13", "ORD-8", "ORD-2", "ERR-7"},
 		"token typestate with release-value rule; who-may rules; loop-carried-remainder rule",
 		lvlCommon, noteCommon,
-		"Decides: every wire write happens in writeTo/writeBuffersTo, called only by holders of the write token (or owners of an unpublished connection); after a failed or unchecked wire call the connection is never put back into writeSem; retry loops send exactly the unsent suffix (writeTo: p[n:]; writeBuffersTo: the receiver WriteTo already consumed is never re-sliced) and only after progress and a timeout; success is returned only behind a nil I/O result; DISCONNECT is the last write before Close; the connection is published only after both resends returned nil. Not decided: the io.Writer contract of the user's net.Conn.",
+		"Decides: every wire write happens in writeTo/writeBuffersTo, called only by holders of the write token (or owners of an unpublished connection); after a failed or unchecked wire call the connection is never put back into writeSem; retry loops send exactly the unsent suffix (writeTo: p[n:]; writeBuffersTo: the receiver WriteTo already consumed is never re-sliced) and only after progress and a timeout; success is returned only behind a nil I/O result; DISCONNECT is the last write before Close; the connection is published only after both resends returned nil. Third round: Disconnect, like the request methods, returns an error derived from a failed write. Not decided: the io.Writer contract of the user's net.Conn.",
 		asmCommon)
 	prop("C09", "emitted packets decode to the request; invalid input denied without trace", "§4 C09",
 		[]string{"ORD-10", "COD-5", "COD-6", "COD-7", "COD-13", "ERR-4", "COD-1"},
@@ -81,66 +81,66 @@ func init() {
 		[]string{"RCH-1", "OWN-7", "TOK-1", "TOK-4", "TOK-5", "TOK-6", "TOK-7", "TOK-11", "ORD-5", "ORD-6", "ORD-7", "ORD-13", "ORD-14", "ERR-5", "TOK-8", "TOK-14", "ERR-8"},
 		"call-graph reachability; token typestate; must-pass-through; rendezvous rule",
 		lvlCommon, noteCommon,
-		"Decides: no function reachable from readSlices contains a wait-for-connect cycle (a CFG cycle through a receive from writeSem); read-routine fields and connect/toOffline/termCallbacks are confined to the read routine; failures are noticed (the connection is never redeposited after a failed write; every error return of readSlices except connect/marker-Save/BigMessage passes toOffline), toOffline closes, deposits connPending, clears readConn/bufr/peek/bigMessage and releases waiting requests after the token exchange; every failure exit of connect closes the new connection and deposits connDown; lock order acyclic, nothing foreign blocks under the write token, every goroutine rendezvous has its partner on all paths; callback channels never block the responder; ReadBackoff returns nil only for ErrClosed and otherwise a channel closed by a bounded timer. Not decided: that a dial eventually succeeds; timing bounds.",
+		"Decides: no function reachable from readSlices contains a wait-for-connect cycle (a CFG cycle through a receive from writeSem); read-routine fields and connect/toOffline/termCallbacks are confined to the read routine; failures are noticed (the connection is never redeposited after a failed write; every error return of readSlices except connect/marker-Save/BigMessage passes toOffline), toOffline closes, deposits connPending, clears readConn/bufr/peek/bigMessage and releases waiting requests after the token exchange; every failure exit of connect closes the new connection and deposits connDown; lock order acyclic, nothing foreign blocks under the write token, every goroutine rendezvous has its partner on all paths; callback channels never block the responder; ReadBackoff returns nil only for ErrClosed and otherwise a channel closed by a bounded timer. Third round: The read routine examines every error before it goes on; toOffline, Close and Disconnect close the connection before they wait for the write token; a blocked signal is followed by the release of the other; deadlines are armed only with PauseTimeout≠0 and removed by a deferred call; ReadBackoff: closed channel only for nil/BigMessage, timer closes the returned channel, duration within [Min, Max] through min/max or if-clamps, ramp-up state bounded, the no-backoff channel closed at init; the Dialer's context derives from the client's and carries PauseTimeout; a failure behind the dial closes the connection. Not decided: that a dial eventually succeeds; timing bounds.",
 		asmCommon)
 	prop("C11", "every request completes with its own response", "§4 C11",
 		[]string{"TOK-9", "TOK-10", "TOK-11", "TOK-12", "TOK-13", "COD-3", "ORD-6", "ORD-8", "ERR-1", "ERR-3", "ERR-7"},
 		"slot pairing and ownership typestate; alias classes of callback channels; error-class flow",
 		lvlCommon, noteCommon,
-		"Decides: after a slot is installed every exit received from its own callback or removed its own slot; the registry is accessed under its mutex, inserts are dominated by the window test and by a failed lookup of the same identifier; the answer goes to the channel and filters returned by the single endTx call keyed with the identifier parsed from that packet; callbacks are answered only after removal from their registry, with capacity ≥ the sends of a life cycle; toOffline and termCallbacks release all waiting requests with ErrBreak; error classes per method and quit ⇒ ErrCanceled/ErrAbandoned. Known finding F7 (Ping empties the shared slot without identity check) is reported as KNOWN-FINDING. Not decided: absence of starvation under real schedules.",
+		"Decides: after a slot is installed every exit received from its own callback or removed its own slot; the registry is accessed under its mutex, inserts are dominated by the window test and by a failed lookup of the same identifier; the answer goes to the channel and filters returned by the single endTx call keyed with the identifier parsed from that packet; callbacks are answered only after removal from their registry, with capacity ≥ the sends of a life cycle; toOffline and termCallbacks release all waiting requests with ErrBreak; error classes per method and quit ⇒ ErrCanceled/ErrAbandoned. Known finding F7 (Ping empties the shared slot without identity check) is reported as KNOWN-FINDING. Third round: A SUBACK return code 0x80 is counted, the count decides whether a SubscribeError is sent, and the error lists exactly the filters with code 0x80; the callback returned by endTx is used only when non-nil. Not decided: absence of starvation under real schedules.",
 		asmCommon)
 	prop("C12", "Close and Disconnect from any state", "§4 C12",
 		[]string{"TOK-1", "TOK-2", "TOK-3", "TOK-7", "TOK-8", "TOK-11", "PAN-2", "PAN-4", "ORD-7", "ORD-8", "ERR-2", "TOK-14"},
 		"token typestate (closer summaries, closed-aware receives); rendezvous rule; must-pass-through",
 		lvlCommon, noteCommon,
-		"Decides: Close/Disconnect cancel the context before waiting for connSem, take connSem, take or interrupt the writer, and close both tokens exactly once while holding both (a second call sees the closed channel and touches nothing); every receive from a closable token is comma-ok or under the closer's lock; the dialAndConnect watcher and the termCallbacks goroutines have their rendezvous partner on every path; signal flips happen under the write token with the opposite signal blocked first; no method is called on a connSignal or nil connection; ReadSlices calls termCallbacks on ErrClosed, queued exchanges get ErrClosed and stay open; DISCONNECT is the last packet; not-submitted classes imply no wire call. Not decided: 'promptly' as a time bound; goroutine-leak freedom beyond the spawned closures having exits on all paths.",
+		"Decides: Close/Disconnect cancel the context before waiting for connSem, take connSem, take or interrupt the writer, and close both tokens exactly once while holding both (a second call sees the closed channel and touches nothing); every receive from a closable token is comma-ok or under the closer's lock; the dialAndConnect watcher and the termCallbacks goroutines have their rendezvous partner on every path; signal flips happen under the write token with the opposite signal blocked first; no method is called on a connSignal or nil connection; ReadSlices calls termCallbacks on ErrClosed, queued exchanges get ErrClosed and stay open; DISCONNECT is the last packet; not-submitted classes imply no wire call. Third round: Close and Disconnect close the connection (or know there is none) before a plain receive of the write token; the connection is handed to connSem before the retransmission round; WaitGroup.Add precedes each go statement; a blocked signal is followed by the release of the other. Not decided: 'promptly' as a time bound; goroutine-leak freedom beyond the spawned closures having exits on all paths.",
 		asmCommon)
 	prop("C13", "hostile broker input", "§4 C13",
 		[]string{"COD-2", "COD-3", "COD-4", "PAN-1", "PAN-2", "PAN-4", "ERR-6", "ORD-5", "ORD-3", "OWN-4", "ORD-13", "ORD-14", "ERR-8"},
 		"dispatch exhaustiveness; guard dominance on entry paths; induction evaluation of the length loop; compiler bounds-check listing against a reasoned table",
 		lvlCommon, noteCommon,
-		"Decides: the head>>4 switch covers all sixteen types (eight handlers, eight sentinels wrapping errProtoReset); per handler the length, zero-identifier, identifier-space, next-in-line and queue-depth guards dominate the first effect; the remaining-length loop continues only while shift ≤ 14 (≤ 4 bytes); every bounds check the compiler could not prove matches a table row with its guard; validation failures wrap errProtoReset and every handler error resets the connection; completion and deletion happen only in the guarded in-order handlers; blocking reads follow a fresh deadline. Known finding F14 (ReadAll without deadline) is reported as KNOWN-FINDING. Not decided: semantics for arbitrary bytes beyond these guards (tolerated unsolicited SUBACK/PINGRESP are deliberate).",
+		"Decides: the head>>4 switch covers all sixteen types (eight handlers, eight sentinels wrapping errProtoReset); per handler the length, zero-identifier, identifier-space, next-in-line and queue-depth guards dominate the first effect; the remaining-length loop continues only while shift ≤ 14 (≤ 4 bytes); every bounds check the compiler could not prove matches a table row with its guard; validation failures wrap errProtoReset and every handler error resets the connection; completion and deletion happen only in the guarded in-order handlers; blocking reads follow a fresh deadline. Known finding F14 (ReadAll without deadline) is reported as KNOWN-FINDING. Third round: The length decode is evaluated exactly for shift 0…28 (four bytes read, each may end the decode, 0x7f/0x80 split); the PUBLISH length guards are exact (topic end ≤ len, len ≥ end+2); the bounds-check guards bound the indexed value itself; unproven checks in helpers introduced later are discharged by the precondition at every call. Not decided: semantics for arbitrary bytes beyond these guards (tolerated unsolicited SUBACK/PINGRESP are deliberate).",
 		asmCommon)
 	prop("C14", "documented error classes; not-submitted means nothing sent", "§4 C14",
 		[]string{"ERR-1", "ERR-2", "ERR-3", "ERR-4", "ERR-5", "ERR-6", "ERR-7", "ORD-1", "ERR-8"},
 		"interprocedural error-class value flow (sentinels, %w, errors.Join, channel alias classes) plus path rules",
 		lvlCommon, noteCommon,
-		"Decides: every origin that can reach the error result of a request method carries at least one class the package documentation lists for it; values sent on callback channels never carry a not-submitted class and exchange channels only ErrDown/ErrSubmit/ErrClosed; a return of class ErrClosed/ErrDown/ErrMax/ErrCanceled/deny lies on a path without any wire-capable call other than the one that produced it; quit arms return exactly ErrCanceled before and ErrAbandoned after submission; deny and end tables are disjoint and complete; Backoff/ReadBackoff return nil exactly under the permanent classes; a persisted publish that errs was not enqueued. Known finding F9c (Disconnect returns the raw Close error) is reported as KNOWN-FINDING. Not decided: the classifiers on arbitrarily wrapped/joined user errors.",
+		"Decides: every origin that can reach the error result of a request method carries at least one class the package documentation lists for it; values sent on callback channels never carry a not-submitted class and exchange channels only ErrDown/ErrSubmit/ErrClosed; a return of class ErrClosed/ErrDown/ErrMax/ErrCanceled/deny lies on a path without any wire-capable call other than the one that produced it; quit arms return exactly ErrCanceled before and ErrAbandoned after submission; deny and end tables are disjoint and complete; Backoff/ReadBackoff return nil exactly under the permanent classes; a persisted publish that errs was not enqueued. Known finding F9c (Disconnect returns the raw Close error) is reported as KNOWN-FINDING. Third round: nonNilIsAny answers false only with no sibling pending and pushes every Unwrap() []error; Disconnect's write error is returned; errors of I/O and Persistence calls are never stepped over. Not decided: the classifiers on arbitrarily wrapped/joined user errors.",
 		asmCommon)
 	prop("C15", "stored records round-trip; damage detected", "§4 C15",
 		[]string{"COD-8", "OWN-4", "OWN-8", "OWN-9", "ADP-2", "ADP-3", "ORD-7", "ERR-8"},
 		"writer/reader table comparison; who-may rules; path rules",
 		lvlCommon, noteCommon,
-		"Decides: encodeValue and decodeValue agree on hash constructor, byte orders, offsets (8/4/12) and hashed extent, the trailer buffer is per call, the length test dominates all slicing and acceptance requires both tests; the rugged Load returns a value only after a nil decode and reports absence only for a nil delegate result; every Persistence the client uses is rugged or volatile; AdoptSession decodes every listed key and deletes, warns and skips corrupt ones; the client identifier comes from a checked Load. Not decided: that FNV-1a detects every single-byte change (a fact about hash/fnv, trusted); multi-byte damage.",
+		"Decides: encodeValue and decodeValue agree on hash constructor, byte orders, offsets (8/4/12) and hashed extent, the trailer buffer is per call, the length test dominates all slicing and acceptance requires both tests; the rugged Load returns a value only after a nil decode and reports absence only for a nil delegate result; every Persistence the client uses is rugged or volatile; AdoptSession decodes every listed key and deletes, warns and skips corrupt ones; the client identifier comes from a checked Load. Third round: initSession and the file store examine every List/Save/Load/OS error; the client identifier record is never deleted or filed by adoption. Not decided: that FNV-1a detects every single-byte change (a fact about hash/fnv, trusted); multi-byte damage.",
 		asmCommon)
 	prop("C16", "a damaged Persistence never bricks the session", "§4 C16",
 		[]string{"ADP-1", "ADP-2", "ADP-3", "ADP-4", "ADP-5", "ADP-6", "ADP-7", "ADP-8", "ORD-2", "ORD-9", "COD-10", "ERR-8"},
 		"path rules and structural checks on AdoptSession and cleanSequence",
 		lvlCommon, noteCommon,
-		"Decides: every branch that warns also abandons what it names (corrupt record: delete+warn+continue before classification; PUBREL gap: list emptied; cleanSequence: prefix dropped and scan restarted at the first pair); every listed key is integrity checked; counters and placeholders come from cleanSequence results; capacity checks precede the placeholders and treat negative limits as default; fatal results stem only from Config, List, Load and the Max checks; wrap tests compare with the start of their range; resend needs the contiguity these establish. Not decided: which records survive a given damage pattern; a damaged client-identifier record.",
+		"Decides: every branch that warns also abandons what it names (corrupt record: delete+warn+continue before classification; PUBREL gap: list emptied; cleanSequence: prefix dropped and scan restarted at the first pair); every listed key is integrity checked; counters and placeholders come from cleanSequence results; capacity checks precede the placeholders and treat negative limits as default; fatal results stem only from Config, List, Load and the Max checks; wrap tests compare with the start of their range; resend needs the contiguity these establish. Third round: The Max checks compare the sum of the right lists after the last list update; the client identifier record is skipped before Delete and filing; the running maximum; the adjacency decisions on test vectors; List's filter. Not decided: which records survive a given damage pattern; a damaged client-identifier record.",
 		asmCommon)
 	prop("C17", "identifiers unique and bounded; excess gets ErrMax", "§4 C17",
 		[]string{"COD-1", "COD-12", "ORD-1", "ORD-3", "TOK-12", "ADP-5", "ADP-7", "ADP-9"},
 		"constant evaluation; dominance and path rules",
 		lvlCommon, noteCommon,
-		"Decides: the four identifier spaces are pairwise disjoint, exclude zero and fit 16 bits; both queue capacities are clamped to ≤ publishIDMask+1 on every path of newClient; the ErrMax test dominates Save and the non-blocking enqueue, and acceptN advances exactly once per accepted message; a queue slot is released only behind a nil Delete; startTx tests the window and skips identifiers still in use, under the mutex; AdoptSession's wrap adjustments and Max checks. Not decided: uniqueness as a statement over histories (follows from bounded window + modulus only with counter arithmetic, not checked numerically).",
+		"Decides: the four identifier spaces are pairwise disjoint, exclude zero and fit 16 bits; both queue capacities are clamped to ≤ publishIDMask+1 on every path of newClient; the ErrMax test dominates Save and the non-blocking enqueue, and acceptN advances exactly once per accepted message; a queue slot is released only behind a nil Delete; startTx tests the window and skips identifiers still in use, under the mutex; AdoptSession's wrap adjustments and Max checks. Third round: The effective limit is decided for nine representative …Max settings (negative and oversized give publishIDMask+1, others are kept); the accept counts AdoptSession installs (ADP-9). Not decided: uniqueness as a statement over histories (follows from bounded window + modulus only with counter arithmetic, not checked numerically).",
 		asmCommon)
 	prop("C18", "connection set-up", "§4 C18",
 		[]string{"ORD-7", "ORD-2", "TOK-1", "TOK-4", "ERR-2", "ERR-6", "ERR-8"},
 		"path-sensitive must-pass-through over connect, dialAndConnect, handshake, lockWrite",
 		lvlCommon, noteCommon,
-		"Decides: the first operation on a dialled connection is the write of newCONNREQ built from the passed Config and the client identifier from a checked Load; handshake succeeds only on paths that established both header bytes, Peek=nil, return code 0, flags ∈ {0,1} and session-present ⇒ ¬clean; CleanSession is cleared exactly when a previous connection existed, on the copy passed down; the connection reaches connSem/writeSem/readConn only after a nil dialAndConnect and, for writers, after both resends; every failure exit closes the connection and deposits connDown; lockWrite waits only on connPending, returns ErrDown only under connDown and the connection only after excluding both signals. Not decided: CONNECT field values for every Config (structurally covered under C09).",
+		"Decides: the first operation on a dialled connection is the write of newCONNREQ built from the passed Config and the client identifier from a checked Load; handshake succeeds only on paths that established both header bytes, Peek=nil, return code 0, flags ∈ {0,1} and session-present ⇒ ¬clean; CleanSession is cleared exactly when a previous connection existed, on the copy passed down; the connection reaches connSem/writeSem/readConn only after a nil dialAndConnect and, for writers, after both resends; every failure exit closes the connection and deposits connDown; lockWrite waits only on connPending, returns ErrDown only under connDown and the connection only after excluding both signals. Third round: A refused, malformed or missing CONNACK closes the connection on every path (handshake expanded in place; the abort watcher closes before it reports); handshake and dialAndConnect examine every error; the Dialer context. Not decided: CONNECT field values for every Config (structurally covered under C09).",
 		asmCommon)
 	prop("C19", "FileSystem atomicity", "§4 C19",
 		[]string{"ORD-9", "COD-10", "ERR-8"},
 		"must-pass-through over fileSystem.Save; who-may rule for file creation; format/filter agreement",
 		lvlCommon, noteCommon,
-		"Decides: the only success path of Save is Create(spoolFile(key)) → WriteTo=nil → Sync=nil → Close → Rename(spool, file(key))=nil; Rename is reachable only behind nil write and nil Sync; every failure after Create removes the spool file; no other function creates, opens for writing or renames files; Load and Delete map not-exist to absent; List accepts exactly five hex digits / 17 bits, which matches %05x and excludes *.spool. Not decided: atomicity of rename(2) and durability of fsync(2) (trusted OS contract); concurrent Saves of the same key share one spool name (outside the stated property).",
+		"Decides: the only success path of Save is Create(spoolFile(key)) → WriteTo=nil → Sync=nil → Close → Rename(spool, file(key))=nil; Rename is reachable only behind nil write and nil Sync; every failure after Create removes the spool file; no other function creates, opens for writing or renames files; Load and Delete map not-exist to absent; List accepts exactly five hex digits / 17 bits, which matches %05x and excludes *.spool. Third round: No error of Create/WriteTo/Sync/Rename/Remove/Open/Readdirnames is stepped over; a name is listed only behind len==5 and a nil ParseUint. Not decided: atomicity of rename(2) and durability of fsync(2) (trusted OS contract); concurrent Saves of the same key share one spool name (outside the stated property).",
 		asmCommon)
 	prop("C20", "mqtttest doubles", "§4 C20",
 		[]string{"MCK-1", "MCK-2", "MCK-3", "MCK-4", "MCK-5", "MCK-6", "MCK-7"},
 		"path enumeration over the finite truth table of each double's conditions",
 		lvlCommon, noteCommon,
-		"Decides: NewPublishMock reports exactly on the paths where message or topic differs; the subscribe mocks classify each filter (present ⇒ removed, absent ⇒ wrong) and report iff wrong or todo is non-empty; want[i] is only indexed behind i<len(want); a Cleanup reports unmet expectations; every double with a quit parameter examines it first and returns mqtt.ErrCanceled untouched; the ReadSlices stub returns per-call allocations; the exchange stub sends every scripted error and closes on exactly the exits that are neither after ErrClosed nor an indefinite block; explicit panics only in documented argument checks. Not decided: real-time aspects of ExchangeBlock.Delay.",
+		"Decides: NewPublishMock reports exactly on the paths where message or topic differs; the subscribe mocks classify each filter (present ⇒ removed, absent ⇒ wrong) and report iff wrong or todo is non-empty; want[i] is only indexed behind i<len(want); a Cleanup reports unmet expectations; every double with a quit parameter examines it first and returns mqtt.ErrCanceled untouched; the ReadSlices stub returns per-call allocations; the exchange stub sends every scripted error and closes on exactly the exits that are neither after ErrClosed nor an indefinite block; explicit panics only in documented argument checks. Third round: The index is the atomic counter before its increment; an invocation beyond the list is reported (and fails, for ReadSlices); the stub's message is a sized copy; errFix is returned; the script validator is decided on positions (i, n) for nil entries, ErrClosed and indefinite blocks; a block entry with zero delay ends without close, others sleep. Not decided: real-time aspects of ExchangeBlock.Delay.",
 		asmCommon)
 }
